@@ -183,7 +183,7 @@ structure St where
   stunTx : List Nat := []
   /-- server-reflexive LOCAL candidates learned so far (address ids) -/
   localSrflx : List Nat := []
-  /-- `close()` was called: the sockets are closed, nothing is received or routed any more -/
+  /-- `close()` was called: the sockets are closed, nothing is received any more -/
   closed : Bool := false
   deriving DecidableEq, Repr
 
@@ -464,7 +464,8 @@ def connect (s : St) : St × List Out :=
 
 /-- `QXmppIceComponent::sendDatagram` -/
 def sendApp (s : St) (payload : List UInt8) : St × List Out :=
-  if s.closed then (s, [.appNoRoute]) else   -- writing to a closed socket fails
+  -- (also after `close()`: `activePair` is null then, so the fallback pair is used, and Qt re-opens the closed QUdpSocket on write —
+  --  the datagram leaves from a fresh port)
   match s.active with
   | some a => (s, [.appSent a payload])
   | none =>
